@@ -517,6 +517,7 @@ impl<A: TreeApi> Sut for TreeSut<A> {
     fn oracle(&self, pre: &[u8], op: &Op, out: &OpOut, post: &[u8]) -> Vec<Finding> {
         let mut f = vec![];
         let prop_of = |name: &str| match name {
+            "dlen" => "C10",
             "fill" => "C07",
             "open" | "ext" | "cap" | "rcap" => "C08",
             _ => "C01",
@@ -637,8 +638,13 @@ impl<A: TreeApi> Sut for TreeSut<A> {
             "dlen" => {
                 // data_len(c) is exactly header plus c records (record size from two independent facts:
                 // the buffer this state lives in and its record count)
-                let rec = if dq.slots > 0 { (post.len() - A::HDR) / dq.slots } else { self.rec_size() };
-                let want = (A::HDR + op.args[0] as usize * rec).to_string();
+                // record size from the layout rule (repr(C): registers, key, value at their alignments), not from data_len
+                let (ks, ka, _) = A::key();
+                let (vs, va, _) = A::val();
+                let koff = align_up(4 * A::IW, ka);
+                let voff = align_up(koff + ks, va);
+                let rec = align_up(voff + vs, A::IW.max(ka).max(va));
+                let want = (A::HDR as u128 + op.args[0] as u128 * rec as u128).to_string();
                 if want != out.result {
                     f.push(Finding { property: "C10", what: format!("data_len({}) is {} but header + records is {}", op.args[0], out.result, want) });
                 }
@@ -667,6 +673,14 @@ impl<A: TreeApi> Sut for TreeSut<A> {
         }
         if op.name != "init" && qlen != exp.len() {
             f.push(Finding { property: prop, what: format!("after `{}` len() is {} but the reference map has {} entries", op.text(), qlen, exp.len()) });
+        }
+        // C01: a refused insert never overwrites an existing entry (stored key and value bytes included)
+        if op.name == "ins" && out.result == "none" {
+            if let (Some(pe), Some(qe)) = (&pre_entries, &post_entries) {
+                if pe != qe {
+                    f.push(Finding { property: "C01", what: format!("the refused `{}` changed a stored entry: {:?} -> {:?}", op.text(), pe, qe) });
+                }
+            }
         }
         // C08: growth adds exactly the new slots
         if op.name == "open" && dp.slots > dp.cap && qcap != dp.slots {
